@@ -1144,9 +1144,9 @@ func c13StaleDeadline(c *h.Ctx) {
 				tr := newWsFake(peerT.Written())
 				conn := ws.VerifNewConn(tr, server, 0, 256, false)
 				ctlName := []string{"a ping was received (the library answered with a pong by itself)", "the application sent a ping with WriteControl (deadline in one second)",
-					"the application set a write deadline of one second, wrote a message, and cleared the deadline", "the application sent a pong with WriteControl (deadline in 10 ms)"}[ctl]
+					"the application set a write deadline of one second, wrote a message, and cleared the deadline", "the application sent a pong with WriteControl (deadline in two seconds)"}[ctl]
 				wrName := []string{"WriteMessage", "NextWriter+Write+Close", "WritePreparedMessage", "WriteJSON", "WriteMessage of 70000 bytes"}[wr]
-				in := fmt.Sprintf("server=%v: %s; five seconds pass; then %s with no write deadline", server, ctlName, wrName)
+				in := fmt.Sprintf("server=%v: %s; fifty seconds pass; then %s with no write deadline", server, ctlName, wrName)
 				payload := []byte("later-message")
 				if wr == 4 {
 					payload = h.LCGBytes(70000, 9)
@@ -1168,11 +1168,11 @@ func c13StaleDeadline(c *h.Ctx) {
 						}
 						conn.SetWriteDeadline(time.Time{})
 					case 3:
-						if err := conn.WriteControl(ws.PongMessage, []byte("p"), time.Now().Add(10*time.Millisecond)); err != nil {
+						if err := conn.WriteControl(ws.PongMessage, []byte("p"), time.Now().Add(2*time.Second)); err != nil {
 							return "WriteControl: " + err.Error()
 						}
 					}
-					tr.Advance(5 * time.Second)
+					tr.Advance(50 * time.Second)
 					var err error
 					switch wr {
 					case 0, 4:
@@ -1227,8 +1227,8 @@ func c13DeadlineHistories(c *h.Ctx) {
 		server := r.Bool()
 		tr := newWsFake(nil)
 		conn := ws.VerifNewConn(tr, server, 0, 256, false)
-		base := time.Now().Add(-10 * time.Second)
-		at := func(d int) time.Time { return base.Add(time.Duration(d)*time.Second + 500*time.Millisecond) }
+		base := time.Now().Add(-100 * time.Second) // one unit of model time is ten seconds: generous against a stalled run
+		at := func(d int) time.Time { return base.Add(time.Duration(d)*10*time.Second + 5*time.Second) }
 		t := 10
 		armed := "n"
 		if r.Chance(40) {
@@ -1244,8 +1244,8 @@ func c13DeadlineHistories(c *h.Ctx) {
 			case 0:
 				adv := r.Pick(2, 5)
 				t += adv
-				tr.Advance(time.Duration(adv) * time.Second)
-				desc = append(desc, fmt.Sprintf("%d s pass", adv))
+				tr.Advance(time.Duration(adv) * 10 * time.Second)
+				desc = append(desc, fmt.Sprintf("%d0 s pass", adv))
 			case 1:
 				switch r.Intn(3) {
 				case 0:
@@ -1255,11 +1255,11 @@ func c13DeadlineHistories(c *h.Ctx) {
 				case 1:
 					conn.SetWriteDeadline(at(t + 3))
 					connDl = fmt.Sprint(2*(t+3) + 1)
-					desc = append(desc, "SetWriteDeadline(now+3.5s)")
+					desc = append(desc, "SetWriteDeadline(now+35s)")
 				default:
 					conn.SetWriteDeadline(at(t - 1))
 					connDl = fmt.Sprint(2*(t-1) + 1)
-					desc = append(desc, "SetWriteDeadline(now-0.5s)")
+					desc = append(desc, "SetWriteDeadline(now-5s)")
 				}
 			case 2, 3:
 				id++
@@ -1292,7 +1292,7 @@ func c13DeadlineHistories(c *h.Ctx) {
 				dl, dlS, dlD := time.Time{}, "n", "no deadline"
 				switch r.Intn(3) {
 				case 1:
-					dl, dlS, dlD = at(t+1), fmt.Sprint(2*(t+1)+1), "deadline now+1.5s"
+					dl, dlS, dlD = at(t+1), fmt.Sprint(2*(t+1)+1), "deadline now+15s"
 				case 2:
 					dl, dlS, dlD = time.Now().Add(-time.Hour), "1", "deadline long past"
 				}
